@@ -1,5 +1,323 @@
-(* C06 — property theorems (statements only; proofs live in Proofs/RaggedCatProofs.v). *)
+(* C06 — ragged containers: construction, concatenation, clone, padding and fill laws.
+   Statements only; every proof is `exact <lemma of Proofs/RaggedCatProofs.v>`.
+
+   Vocabulary (Model/RaggedSpec.v, Model/RaggedCat.v):
+     cell matrix m : list (list (list A))      rows x columns x scalars of a cell
+     rect c m            every row of m has c cells
+     rect_w ws m         every row of m has one cell per column, of widths ws
+     mnt_of_cells c m    THE MultiNestedTensor (num_rows, num_cols, values, offset) holding m
+     met_of_cells ws m   THE MultiEmbeddingTensor holding m
+     hcat n ms           rows of the matrices ms appended pairwise (n rows)
+     pick_rows / pick_cols pos m     the nested-list selection of positions pos
+     fill_cells / pad_cells          nested-list references of fillna_col / to_dense
+   junk_o / junk_v are the contents of torch.empty buffers: every statement holds
+   for all of them.  All theorems are for every payload type A, every size, every
+   number of parts (proved by induction, no bounds). *)
 From Coq Require Import ZArith List Bool Arith.
 From PF Require Import Lib.ListX Lib.PySlice Model.Ragged Model.RaggedSpec Model.RaggedCat.
 From PF Require Import Proofs.RaggedCatProofs.
 Import ListNotations.
+
+Section C06.
+  Variable A : Type.
+  Notation cellmat := (list (list (list A))).
+  Variable junk_o : nat -> nat.
+  Variable junk_v : nat -> A.
+
+  (* ------------------------------------------------------------------ *)
+  (* 1. building a container from its cells and reading the cells back is the identity *)
+
+  Theorem mnt_from_mat_cells : forall c (m : cellmat), rect c m -> m <> [] -> c <> 0 ->
+    mnt_from_mat A m = Some (mnt_of_cells c m).
+  Proof. exact (mnt_from_mat_canon A). Qed.
+
+  Theorem mnt_cells_read_back : forall c (m : cellmat) i j, rect c m -> i < length m -> j < c ->
+    mnt_get_value A (mnt_of_cells c m) i j = Some (nth j (nth i m []) []).
+  Proof. exact (mnt_get_value_canon A). Qed.
+
+  (* anything that is not a non-empty rectangular matrix is rejected *)
+  Theorem mnt_from_mat_rejects :
+    mnt_from_mat A [] = None
+    /\ (forall m : cellmat, (forall c, ~ rect c m) -> mnt_from_mat A m = None)
+    /\ (forall m : cellmat, rect 0 m -> mnt_from_mat A m = None).
+  Proof. exact (conj (mnt_from_mat_empty A) (conj (mnt_from_mat_ragged A) (mnt_from_mat_nocols A))). Qed.
+
+  Theorem met_from_cells_cells : forall ws (m : cellmat), rect_w ws m -> m <> [] -> ws <> [] ->
+    met_from_cells A m = Some (met_of_cells ws m).
+  Proof. exact (met_from_cells_canon A). Qed.
+
+  Theorem met_cells_read_back : forall ws (m : cellmat) i j, rect_w ws m -> i < length m -> j < length ws ->
+    met_get_value A (met_of_cells ws m) i j = Some (nth j (nth i m []) []).
+  Proof. exact (met_get_value_canon A). Qed.
+
+  Theorem met_from_cells_rejects :
+    met_from_cells A [] = None /\ (forall m : cellmat, met_from_cells A ([] :: m) = None).
+  Proof. exact (conj (met_from_cells_empty A) (met_from_cells_nocols A)). Qed.
+
+  (* ------------------------------------------------------------------ *)
+  (* 2. concatenation yields exactly the cells of the parts in order *)
+
+  (* rows: any number of parts, parts with zero rows included *)
+  Theorem mnt_cat_rows : forall c (ms : list cellmat), Forall (rect c) ms -> ms <> [] ->
+    mnt_cat A junk_o junk_v (map (mnt_of_cells c) ms) 0%Z = Some (mnt_of_cells c (concat ms)).
+  Proof. intros c ms H Hne. rewrite mnt_cat_dim0. exact (mnt_cat0_canon A junk_o c ms H Hne). Qed.
+
+  (* columns: parts p = (number of columns, cells), all with n rows; parts with zero
+     columns and n = 0 included; the result row r is the rows r of the parts appended *)
+  Theorem mnt_cat_cols : forall n (ps : list (nat * cellmat)), ps <> [] ->
+    Forall (fun p => rect (fst p) (snd p) /\ length (snd p) = n) ps ->
+    mnt_cat A junk_o junk_v (map (fun p => mnt_of_cells (fst p) (snd p)) ps) 1%Z =
+    Some (mnt_of_cells (sum (map fst ps)) (hcat n (map snd ps))).
+  Proof. intros n ps Hne H. rewrite mnt_cat_dim1. exact (mnt_cat1_canon A junk_o junk_v n ps Hne H). Qed.
+
+  Theorem met_cat_rows : forall ws (ms : list cellmat), ms <> [] ->
+    met_cat A (map (met_of_cells ws) ms) 0%Z = Some (met_of_cells ws (concat ms)).
+  Proof. intros ws ms Hne. rewrite met_cat_dim0. exact (met_cat0_canon A ws ms Hne). Qed.
+
+  (* parts p = (column widths, cells) *)
+  Theorem met_cat_cols : forall n (ps : list (list nat * cellmat)), ps <> [] ->
+    Forall (fun p => length (snd p) = n) ps ->
+    met_cat A (map (fun p => met_of_cells (fst p) (snd p)) ps) 1%Z =
+    Some (met_of_cells (concat (map fst ps)) (hcat n (map snd ps))).
+  Proof. intros n ps Hne H. rewrite met_cat_dim1. exact (met_cat1_canon A n ps Hne H). Qed.
+
+  (* the results are again canonical containers of rectangular matrices, hence usable in
+     every further operation (C05) *)
+  Theorem cat_results_rect :
+    (forall c (ms : list cellmat), Forall (rect c) ms -> rect c (concat ms))
+    /\ (forall n (ps : list (nat * cellmat)),
+          Forall (fun p => rect (fst p) (snd p) /\ length (snd p) = n) ps ->
+          rect (sum (map fst ps)) (hcat n (map snd ps))).
+  Proof. exact (conj (rect_concat A) (hcat_rect A)). Qed.
+
+  (* dim = -3 / -2 are dim = 0 / 1 *)
+  Theorem cat_negative_dims : forall (xs : list (mnt A)) (ys : list (met A)),
+    (mnt_cat A junk_o junk_v xs (-3)%Z = mnt_cat A junk_o junk_v xs 0%Z
+     /\ mnt_cat A junk_o junk_v xs (-2)%Z = mnt_cat A junk_o junk_v xs 1%Z)
+    /\ (met_cat A ys (-3)%Z = met_cat A ys 0%Z /\ met_cat A ys (-2)%Z = met_cat A ys 1%Z).
+  Proof. intros xs ys. exact (conj (mnt_cat_neg A junk_o junk_v xs) (met_cat_neg A ys)). Qed.
+
+  (* ------------------------------------------------------------------ *)
+  (* 3. rejections: empty argument lists and disagreeing row / column counts *)
+
+  Theorem cat_rejects_empty : forall d,
+    mnt_cat A junk_o junk_v [] d = None /\ met_cat A [] d = None
+    /\ cat_tensor_data A junk_o junk_v [] d = None.
+  Proof. intros d. repeat split. Qed.
+
+  Theorem mnt_cat_rejects_mismatch : forall (x0 x : mnt A) rest, In x rest ->
+    (nc x <> nc x0 -> mnt_cat A junk_o junk_v (x0 :: rest) 0%Z = None)
+    /\ (nr x <> nr x0 -> mnt_cat A junk_o junk_v (x0 :: rest) 1%Z = None).
+  Proof.
+    intros x0 x rest Hin. split; intros Hne.
+    - exact (mnt_cat0_mismatch A junk_o x0 rest x Hin Hne).
+    - exact (mnt_cat1_mismatch A junk_o junk_v x0 rest x Hin Hne).
+  Qed.
+
+  Theorem met_cat_rejects_mismatch : forall (x0 x : met A) rest, In x rest ->
+    (ec x <> ec x0 -> met_cat A (x0 :: rest) 0%Z = None)
+    /\ (er x <> er x0 -> met_cat A (x0 :: rest) 1%Z = None).
+  Proof.
+    intros x0 x rest Hin. split; intros Hne.
+    - exact (met_cat0_mismatch A x0 rest x Hin Hne).
+    - exact (met_cat1_mismatch A x0 rest x Hin Hne).
+  Qed.
+
+  (* ------------------------------------------------------------------ *)
+  (* 4. cat of selections, and the split / cat round trip.
+     ixs are ANY index expressions of C05 (ints, slices, lists, ranges, tensors, masks)
+     that are valid for the axis; poss are the positions they denote.  Parts may be
+     empty (t[2:2], t[:, []]).  The parts are computed by the real selection kernels. *)
+
+  Theorem mnt_cat_of_row_selections : forall c (m : cellmat) ixs poss, rect c m -> ixs <> [] ->
+    Forall2 (fun ix pos => py_positions (length m) ix = Some pos) ixs poss ->
+    (parts <- mapM (fun ix => select A _ (mnt_kernels A) (mnt_of_cells c m) ix 0) ixs ;;
+     mnt_cat A junk_o junk_v parts 0%Z)
+    = Some (mnt_of_cells c (pick_rows (concat poss) m)).
+  Proof. exact (mnt_cat_row_selections A junk_o junk_v). Qed.
+
+  Theorem mnt_cat_of_col_selections : forall c (m : cellmat) ixs poss, rect c m -> ixs <> [] ->
+    Forall2 (fun ix pos => py_positions c ix = Some pos) ixs poss ->
+    (parts <- mapM (fun ix => select A _ (mnt_kernels A) (mnt_of_cells c m) ix 1) ixs ;;
+     mnt_cat A junk_o junk_v parts 1%Z)
+    = Some (mnt_of_cells (length (concat poss)) (pick_cols (concat poss) m)).
+  Proof. exact (mnt_cat_col_selections A junk_o junk_v). Qed.
+
+  (* any partition of the rows (resp. columns) into parts whose positions concatenate to
+     0 .. n-1 restores an EQUAL container: same sizes, same values, same offsets *)
+  Theorem mnt_split_cat_roundtrip_rows : forall c (m : cellmat) ixs poss, rect c m -> ixs <> [] ->
+    Forall2 (fun ix pos => py_positions (length m) ix = Some pos) ixs poss ->
+    concat poss = seq 0 (length m) ->
+    (parts <- mapM (fun ix => select A _ (mnt_kernels A) (mnt_of_cells c m) ix 0) ixs ;;
+     mnt_cat A junk_o junk_v parts 0%Z) = Some (mnt_of_cells c m).
+  Proof. exact (mnt_roundtrip_rows A junk_o junk_v). Qed.
+
+  Theorem mnt_split_cat_roundtrip_cols : forall c (m : cellmat) ixs poss, rect c m -> ixs <> [] ->
+    Forall2 (fun ix pos => py_positions c ix = Some pos) ixs poss ->
+    concat poss = seq 0 c ->
+    (parts <- mapM (fun ix => select A _ (mnt_kernels A) (mnt_of_cells c m) ix 1) ixs ;;
+     mnt_cat A junk_o junk_v parts 1%Z) = Some (mnt_of_cells c m).
+  Proof. exact (mnt_roundtrip_cols A junk_o junk_v). Qed.
+
+  Theorem met_cat_of_row_selections : forall ws (m : cellmat) ixs poss, rect_w ws m -> ixs <> [] ->
+    Forall2 (fun ix pos => py_positions (length m) ix = Some pos) ixs poss ->
+    (parts <- mapM (fun ix => select A _ (met_kernels A) (met_of_cells ws m) ix 0) ixs ;; met_cat A parts 0%Z)
+    = Some (met_of_cells ws (pick_rows (concat poss) m)).
+  Proof. exact (met_cat_row_selections A). Qed.
+
+  Theorem met_cat_of_col_selections : forall ws (m : cellmat) ixs poss, rect_w ws m -> ixs <> [] ->
+    Forall2 (fun ix pos => py_positions (length ws) ix = Some pos) ixs poss ->
+    (parts <- mapM (fun ix => select A _ (met_kernels A) (met_of_cells ws m) ix 1) ixs ;; met_cat A parts 1%Z)
+    = Some (met_of_cells (map (fun j => nth j ws 0) (concat poss)) (pick_cols (concat poss) m)).
+  Proof. exact (met_cat_col_selections A). Qed.
+
+  Theorem met_split_cat_roundtrip_rows : forall ws (m : cellmat) ixs poss, rect_w ws m -> ixs <> [] ->
+    Forall2 (fun ix pos => py_positions (length m) ix = Some pos) ixs poss ->
+    concat poss = seq 0 (length m) ->
+    (parts <- mapM (fun ix => select A _ (met_kernels A) (met_of_cells ws m) ix 0) ixs ;; met_cat A parts 0%Z)
+    = Some (met_of_cells ws m).
+  Proof. exact (met_roundtrip_rows A). Qed.
+
+  Theorem met_split_cat_roundtrip_cols : forall ws (m : cellmat) ixs poss, rect_w ws m -> ixs <> [] ->
+    Forall2 (fun ix pos => py_positions (length ws) ix = Some pos) ixs poss ->
+    concat poss = seq 0 (length ws) ->
+    (parts <- mapM (fun ix => select A _ (met_kernels A) (met_of_cells ws m) ix 1) ixs ;; met_cat A parts 1%Z)
+    = Some (met_of_cells ws m).
+  Proof. exact (met_roundtrip_cols A). Qed.
+
+  (* ------------------------------------------------------------------ *)
+  (* 5. clone gives an equal container  ("shares no storage" is observed at run time) *)
+  Theorem clone_equal :
+    (forall c (m : cellmat), rect c m -> mnt_clone A (mnt_of_cells c m) = Some (mnt_of_cells c m))
+    /\ (forall ws (m : cellmat), met_clone A (met_of_cells ws m) = Some (met_of_cells ws m)).
+  Proof. exact (conj (mnt_clone_canon A) (met_clone_canon A)). Qed.
+
+  (* ------------------------------------------------------------------ *)
+  (* 6. to_dense: every cell followed only by the fill value (containers with >= 1 cell) *)
+  Theorem to_dense_spec : forall fill c (m : cellmat), rect c m -> m <> [] -> c <> 0 ->
+    mnt_to_dense A (mnt_of_cells c m) fill = Some (pad_cells fill m).
+  Proof. exact (mnt_to_dense_canon A). Qed.
+
+  (* pointwise: dense[i][j][k] = cell[k] if k < |cell| else fill ; the last axis has the
+     length of the longest cell *)
+  Theorem to_dense_pointwise : forall (fill : A) (m : cellmat) i j k, i < length m -> j < length (nth i m []) ->
+    nth k (nth j (nth i (pad_cells fill m) []) []) fill = nth k (nth j (nth i m []) []) fill
+    /\ length (nth j (nth i (pad_cells fill m) []) []) = list_max (map (@length A) (concat m)).
+  Proof. exact (pad_cells_nth A). Qed.
+
+  (* ------------------------------------------------------------------ *)
+  (* 7. fillna_col changes exactly the missing scalars of column j, nothing else:
+     sizes, offsets, all other columns and the non-missing scalars of column j stay *)
+  Theorem mnt_fillna_col_spec : forall is_na fill c (m : cellmat) j, rect c m -> j < c ->
+    mnt_fillna_col A is_na (mnt_of_cells c m) j fill = Some (mnt_of_cells c (fill_cells is_na fill j m)).
+  Proof. exact (mnt_fillna_col_canon A). Qed.
+
+  Theorem met_fillna_col_spec : forall is_na fill ws (m : cellmat) j, rect_w ws m -> j < length ws ->
+    met_fillna_col A is_na (met_of_cells ws m) j fill = Some (met_of_cells ws (fill_cells is_na fill j m)).
+  Proof. exact (met_fillna_col_canon A). Qed.
+
+  Theorem fill_cells_pointwise : forall is_na (fill : A) j (m : cellmat) i,
+    (forall j', j' <> j -> nth j' (nth i (fill_cells is_na fill j m) []) [] = nth j' (nth i m []) [])
+    /\ (j < length (nth i m []) ->
+        nth j (nth i (fill_cells is_na fill j m) []) [] =
+        map (fun v => if is_na v then fill else v) (nth j (nth i m []) [])).
+  Proof.
+    intros is_na fill j m i. split.
+    - intros j' Hne. exact (fill_cells_other A is_na fill j j' m i Hne).
+    - exact (fill_cells_same A is_na fill j m i).
+  Qed.
+
+  (* ------------------------------------------------------------------ *)
+  (* 8. torch_frame.cat on tensor data: one element is returned as is, two or more
+     containers go to the class method *)
+  Theorem cat_tensor_data_dispatch : forall d,
+    (forall x, cat_tensor_data A junk_o junk_v [x] d = Some x)
+    /\ (forall t0 t1 ts, cat_tensor_data A junk_o junk_v (map TMnt (t0 :: t1 :: ts)) d =
+                         option_map TMnt (mnt_cat A junk_o junk_v (t0 :: t1 :: ts) d))
+    /\ (forall t0 t1 ts, cat_tensor_data A junk_o junk_v (map TMet (t0 :: t1 :: ts)) d =
+                         option_map TMet (met_cat A (t0 :: t1 :: ts) d)).
+  Proof.
+    intros d. split; [|split].
+    - intros x. exact (cat_tensor_data_single A junk_o junk_v x d).
+    - intros. exact (cat_tensor_data_mnt A junk_o junk_v t0 t1 ts d).
+    - intros. exact (cat_tensor_data_met A junk_o junk_v t0 t1 ts d).
+  Qed.
+End C06.
+
+Print Assumptions mnt_from_mat_cells.
+Print Assumptions mnt_cells_read_back.
+Print Assumptions mnt_from_mat_rejects.
+Print Assumptions met_from_cells_cells.
+Print Assumptions met_cells_read_back.
+Print Assumptions met_from_cells_rejects.
+Print Assumptions mnt_cat_rows.
+Print Assumptions mnt_cat_cols.
+Print Assumptions met_cat_rows.
+Print Assumptions met_cat_cols.
+Print Assumptions cat_results_rect.
+Print Assumptions cat_negative_dims.
+Print Assumptions cat_rejects_empty.
+Print Assumptions mnt_cat_rejects_mismatch.
+Print Assumptions met_cat_rejects_mismatch.
+Print Assumptions mnt_cat_of_row_selections.
+Print Assumptions mnt_cat_of_col_selections.
+Print Assumptions mnt_split_cat_roundtrip_rows.
+Print Assumptions mnt_split_cat_roundtrip_cols.
+Print Assumptions met_cat_of_row_selections.
+Print Assumptions met_cat_of_col_selections.
+Print Assumptions met_split_cat_roundtrip_rows.
+Print Assumptions met_split_cat_roundtrip_cols.
+Print Assumptions clone_equal.
+Print Assumptions to_dense_spec.
+Print Assumptions to_dense_pointwise.
+Print Assumptions mnt_fillna_col_spec.
+Print Assumptions met_fillna_col_spec.
+Print Assumptions fill_cells_pointwise.
+Print Assumptions cat_tensor_data_dispatch.
+
+(* ---------------------------------------------------------------------- *)
+(* Non-vacuity: the hypotheses hold on concrete, non-trivial states, and the
+   model computes the stated results on them (vm_compute). *)
+Definition ex_m : list (list (list nat)) := [[[1; 2]; [3]]; [[]; [4; 5; 6]]; [[7]; []]].
+Definition ex_ps : list (nat * list (list (list nat))) :=
+  [(2, ex_m); (0, [[]; []; []]); (1, [[[8]]; [[9; 10]]; [[]]])].
+Definition ex_junk : nat -> nat := fun k => 1000 + k.
+
+Example ex_rect : rect 2 ex_m.
+Proof. repeat constructor. Qed.
+
+Example ex_parts_ok : Forall (fun p => rect (fst p) (snd p) /\ length (snd p) = 3) ex_ps.
+Proof. repeat constructor. Qed.
+
+(* three parts, one of them without columns *)
+Example ex_cat_cols :
+  mnt_cat nat ex_junk ex_junk (map (fun p => mnt_of_cells (fst p) (snd p)) ex_ps) 1%Z =
+  Some (mnt_of_cells 3 [[[1; 2]; [3]; [8]]; [[]; [4; 5; 6]; [9; 10]]; [[7]; []; []]]).
+Proof. vm_compute. reflexivity. Qed.
+
+(* a partition of the rows by a slice, an empty slice and an index list; the parts are
+   computed by the selection kernels from a container with non-trivial offsets *)
+Example ex_valid_parts :
+  Forall2 (fun ix pos => py_positions (length ex_m) ix = Some pos)
+          [ISlice None (Some 1%Z) None; ISlice (Some 1%Z) (Some 1%Z) None; IList [1%Z; (-1)%Z]]
+          [[0]; []; [1; 2]].
+Proof. repeat constructor. Qed.
+
+Example ex_roundtrip :
+  (parts <- mapM (fun ix => select nat _ (mnt_kernels nat) (mnt_of_cells 2 ex_m) ix 0)
+                 [ISlice None (Some 1%Z) None; ISlice (Some 1%Z) (Some 1%Z) None; IList [1%Z; (-1)%Z]] ;;
+   mnt_cat nat ex_junk ex_junk parts 0%Z) = Some (mnt_of_cells 2 ex_m).
+Proof. vm_compute. reflexivity. Qed.
+
+Example ex_rect_w : rect_w [2; 0; 1] [[[1; 2]; []; [3]]; [[4; 5]; []; [6]]].
+Proof. repeat constructor. Qed.
+
+Example ex_to_dense :
+  mnt_to_dense nat (mnt_of_cells 2 ex_m) 0 =
+  Some [[[1; 2; 0]; [3; 0; 0]]; [[0; 0; 0]; [4; 5; 6]]; [[7; 0; 0]; [0; 0; 0]]].
+Proof. vm_compute. reflexivity. Qed.
+
+Example ex_fillna :
+  mnt_fillna_col nat (Nat.eqb 5) (mnt_of_cells 2 ex_m) 1 99 =
+  Some (mnt_of_cells 2 [[[1; 2]; [3]]; [[]; [4; 99; 6]]; [[7]; []]]).
+Proof. vm_compute. reflexivity. Qed.
